@@ -45,10 +45,16 @@ func c17slow(c *core.Ctx) {
 	completed := 0
 	var early, wrong atomic.Int64
 	var wg sync.WaitGroup
+	var releaseCrowd sync.Once
+	crowdStart := make(chan struct{})
 	call := func(id int64) {
 		defer wg.Done()
 		a, b := o.Do(func() (int64, string) {
 			inv.Add(1)
+			// the crowd is let loose 50 ms after the slow action has STARTED (released from in
+			// here: on a loaded machine the goroutine making this call may get going late, and
+			// a crowd member that came first would rightly run its own function instead)
+			releaseCrowd.Do(func() { time.AfterFunc(50*time.Millisecond, func() { close(crowdStart) }) })
 			time.Sleep(d)
 			completed = 1
 			return 77, "slow"
@@ -64,7 +70,6 @@ func c17slow(c *core.Ctx) {
 	// at once than a 16-bit field can count): all of them must wait and get the results
 	var crowd sync.WaitGroup
 	var crowdBad atomic.Int64
-	crowdStart := make(chan struct{})
 	for i := 0; i < 70000; i++ {
 		crowd.Add(1)
 		go func() {
@@ -78,7 +83,6 @@ func c17slow(c *core.Ctx) {
 	}
 	wg.Add(1)
 	go call(0)
-	time.AfterFunc(50*time.Millisecond, func() { close(crowdStart) })
 	// the first waiters arrive within milliseconds (they wait for almost the whole
 	// action), the others spread over its lifetime
 	for i := 1; i <= 8; i++ {
@@ -127,9 +131,110 @@ func c17slow(c *core.Ctx) {
 	c.NonTrivial(core.Mix(c.Seed, 1717))
 }
 
+// goid reads the calling goroutine's id off its stack header (harness-side only).
+func goid() int64 {
+	buf := make([]byte, 64)
+	n := runtime.Stack(buf, false)
+	var id int64
+	fmt.Sscanf(string(buf[:n]), "goroutine %d ", &id)
+	return id
+}
+
+// c17goidWrap: Do calls made while the action runs, from goroutines created 2^24 goroutines
+// after the one that runs the action (whatever identifies "the goroutine inside the action"
+// must not confuse it with a goroutine whose id is the same in the low 24 bits). About 17
+// million short-lived goroutines are created to get there (10..30 s).
+func c17goidWrap(c *core.Ctx) {
+	var o sync2.Once2[int64, string]
+	release := make(chan struct{})
+	started := make(chan int64, 1)
+	var done atomic.Bool
+	var inv atomic.Int64
+	var wg sync.WaitGroup
+	wg.Add(1)
+	go func() {
+		defer wg.Done()
+		o.Do(func() (int64, string) {
+			inv.Add(1)
+			started <- goid()
+			<-release
+			done.Store(true)
+			return 77, "w"
+		})
+	}()
+	g0 := <-started
+	const wrap = 1 << 24
+	target := g0 + wrap
+	sample := func() int64 {
+		ch := make(chan int64, 1)
+		go func() { ch <- goid() }()
+		return <-ch
+	}
+	burned := int64(0)
+	for {
+		cur := sample()
+		left := target - 20000 - cur
+		if left <= 0 {
+			break
+		}
+		if left > 50000 {
+			left = 50000
+		}
+		for i := int64(0); i < left; i++ {
+			go func() {}()
+		}
+		burned += left
+	}
+	// the window: every P creates waiters, so that every P's cache of ids gets used up
+	var early, hits atomic.Int64
+	np := runtime.GOMAXPROCS(0)
+	var sp sync.WaitGroup
+	for p := 0; p < np; p++ {
+		sp.Add(1)
+		go func() {
+			defer sp.Done()
+			for i := 0; i < 60000/np; i++ {
+				wg.Add(1)
+				go func() {
+					defer wg.Done()
+					if (goid()-g0)%wrap == 0 {
+						hits.Add(1)
+					}
+					a, b := o.Do(func() (int64, string) { inv.Add(1); return -1, "x" })
+					if !done.Load() || a != 77 || b != "w" {
+						early.Add(1)
+					}
+				}()
+			}
+		}()
+	}
+	sp.Wait()
+	last := sample()
+	time.Sleep(20 * time.Millisecond)
+	close(release)
+	if !joinOrDeadlock(c, &wg, "Once2:goroutine-id-wrap", "Do calls made while the action runs, by goroutines created about 2^24 goroutines later", nil) {
+		return
+	}
+	c.Count("goroutines_created_between_invoker_and_callers", burned)
+	c.Count("callers_with_invoker_id_modulo_2^24", hits.Load())
+	if n := early.Load(); n != 0 || inv.Load() != 1 {
+		c.Violate("Once2:returned-before-completion[caller created 2^24 goroutines after the invoker]", fmt.Sprintf("%d of 60000 Do calls made while the action was running returned before it had completed or with other values (%d functions invoked); the callers were goroutines created about 2^24 goroutines after the one running the action (invoker id %d, ids up to %d)", n, inv.Load(), g0, last), nil)
+		return
+	}
+	if hits.Load() == 0 {
+		c.Inconclusive(fmt.Sprintf("no caller got an id equal to the invoker's modulo 2^24 (invoker %d, window ended at %d)", g0, last))
+		return
+	}
+	c.NonTrivial(core.Mix(c.Seed, 171717))
+}
+
 func runC17(c *core.Ctx) {
 	if c.Index == 3 && c.Build == "plain" {
 		c17slow(c)
+		return
+	}
+	if c.Index == 5 && c.Build == "plain" && c.Mode != "par" {
+		c17goidWrap(c)
 		return
 	}
 	r := c.R
@@ -151,7 +256,17 @@ func runC17(c *core.Ctx) {
 			// result types and values that invite shortcuts: zero values, nil pointers,
 			// nil and NON-nil errors as the last result
 			ok := true
-			switch r.Intn(7) {
+			switch r.Intn(12) {
+			case 7: // result types smaller than a word (whatever sits next to the stored result must leave it alone)
+				ok = c17typed(c, r, "int32", func(id int64) int32 { return int32(1000 + id) })
+			case 8:
+				ok = c17typed(c, r, "int8", func(id int64) int8 { return int8(100 - id%50) })
+			case 9:
+				ok = c17typed(c, r, "float32", func(id int64) float32 { return 1.5 + float32(id) })
+			case 10:
+				ok = c17typed(c, r, "[3]byte", func(id int64) [3]byte { return [3]byte{byte(id), 0xFF, 1} })
+			case 11:
+				ok = c17typed(c, r, "uint16", func(id int64) uint16 { return uint16(40000 + id) })
 			case 0:
 				errs := map[int64]error{}
 				var mu sync.Mutex
